@@ -527,6 +527,12 @@ impl Store {
     pub fn insert_frame(&self, frame: &Frame) -> Result<(), crate::error::Error> {
         let encoded: Vec<u8> = serde_json::to_vec(&frame).unwrap();
 
+        // Reads deserialize what is stored here and panic when that fails: refuse a frame
+        // whose encoding cannot be read back (e.g. meta nested beyond the JSON parser's
+        // recursion limit) instead of poisoning every later read
+        serde_json::from_slice::<Frame>(&encoded)
+            .map_err(|e| format!("frame cannot be stored, its encoding does not decode: {e}"))?;
+
         // Get the index topic key
         let topic_key = idx_topic_key_from_frame(frame)?;
 
